@@ -95,7 +95,7 @@ pub fn build_guest(isa: &Isa, main_kind: usize, long_handlers: bool) -> Guest {
     c.extend(asm(isa, "Bcc d:8", Fields { cc: 0, data: 0xfe, ..Default::default() }));
     // ---- handlers
     let mut handlers = Vec::new();
-    for &v in VECTORS.iter() {
+    for v in 1..=63u8 {
         handlers.push((v, CODE + c.len() as u32));
         c.extend(asm(isa, "MOV.B #xx:8,Rd", f(12, 0, v as u32))); // R4L = v
         c.extend(asm(isa, "MOV.B Rs,@ERd", Fields { rs: 12, ra: 6, ..Default::default() }));
@@ -248,7 +248,7 @@ pub fn judge(g: &Guest, schedule_req: &[(usize, u8)], o: &RunObs, base: &RunObs)
     if !injected.is_empty() || !o.pending_at_end.is_empty() {
         return Some(format!("requests never delivered: {:?} (still pending at the end: {:?}; log {:02x?})", injected, o.pending_at_end, o.log));
     }
-    for &v in VECTORS.iter() {
+    for v in 1..=63u8 {
         let want = schedule.iter().filter(|x| x.1 == v).count() as u8;
         if o.counters[v as usize] != want {
             return Some(format!("vector {} handler ran {} times, {} requests were injected", v, o.counters[v as usize], want));
@@ -368,6 +368,100 @@ fn c10_units(tier: Tier) -> Vec<Unit> {
             }
         }
     }
+    // ---- every vector number: all ordered pairs (and v,w,v triples) at three relative timings
+    for long in [false, true] {
+        let name = format!("all-vectors/{}", if long { "long" } else { "short" });
+        units.push(Unit::new(
+            &name,
+            63,
+            "every ordered pair (v1, v2) of vector numbers 1-63 injected at {the same boundary, v2 one iteration into v1's handler (masked), v2 well after v1 returned} and every triple (v1, v2, v1) as a burst into v1's handler, through the real run(): 63 x 63 x 4 schedules per guest",
+            move |ctx, chunk| {
+                let g = build_guest(&ctx.isa, 1, long);
+                let mut cpu = Cpu::new();
+                load_guest(&mut cpu, &g);
+                let base = run_with_schedule(&mut cpu, &g, &[], 500);
+                let v1 = chunk as u8 + 1;
+                for v2 in 1..=63u8 {
+                    let far = if long { 24 } else { 16 };
+                    for schedule in [vec![(2usize, v1), (2, v2)], vec![(2, v1), (3, v2)], vec![(2, v1), (far, v2)], vec![(2, v1), (3, v2), (4, v1)]] {
+                        let o = run_with_schedule(&mut cpu, &g, &schedule, 700);
+                        ctx.st.cases += 1;
+                        ctx.st.nontrivial += 1;
+                        *ctx.st.notes.entry("loop iterations executed".into()).or_insert(0) += o.iterations as u64;
+                        let bit = (o.log.iter().fold(0u64, |h, &b| h.wrapping_mul(131).wrapping_add(b as u64)) & 0xffff) as usize;
+                        ctx.st.outcome_bits[bit / 64] |= 1 << (bit % 64);
+                        if let Some(msg) = judge(&g, &schedule, &o, &base) {
+                            let case = json!({"guest": g.name, "main": 1, "long": long, "schedule": schedule.iter().map(|x| json!([x.0, x.1])).collect::<Vec<_>>()});
+                            ctx.custom_violation("c10", msg, case, json!(null), json!({"log": o.log, "result": o.result}));
+                            if ctx.stop {
+                                return;
+                            }
+                        }
+                    }
+                }
+            },
+        ));
+    }
+    // ---- single boundary, every vector x every CCR: masked => nothing happens and the request stays pending
+    units.push(Unit::new(
+        "boundary/all-vectors-x-ccr",
+        1,
+        "one boundary: every vector 1-63 x all 256 CCR values x {alone, behind another pending request}: with I set nothing is accepted, no register or memory changes and the requests stay pending in order; with I clear exactly the oldest request is accepted",
+        move |ctx, _| {
+            for v in 1..=63u8 {
+                for ccr in 0..=255u8 {
+                    for second in [None, Some(if v == 63 { 1 } else { v + 1 })] {
+                        let cpu = &mut ctx.m.cpu;
+                        cpu.er = crate::hv::dom::background_regs();
+                        cpu.er[7] = 0x00ffe700;
+                        cpu.vh_set_pc(0x410000);
+                        cpu.vh_set_ccr(ccr);
+                        cpu.vh_clear_pending_interrupts();
+                        cpu.vh_request_interrupt(v);
+                        if let Some(w) = second {
+                            cpu.vh_request_interrupt(w);
+                        }
+                        let er = cpu.er;
+                        crate::cpu::verif_hooks::bus_write_log_enable(true);
+                        let r = cpu.vh_try_interrupt();
+                        let mut wl = Vec::new();
+                        crate::cpu::verif_hooks::bus_write_log_take(&mut wl);
+                        crate::cpu::verif_hooks::bus_write_log_enable(false);
+                        let pend = cpu.vh_pending_interrupts();
+                        ctx.st.cases += 1;
+                        ctx.st.nontrivial += 1;
+                        let mut verdict = None;
+                        if ccr & 0x80 != 0 {
+                            let want: Vec<u8> = std::iter::once(v).chain(second).collect();
+                            if r.is_err() || cpu.er != er || cpu.vh_pc() != 0x410000 || cpu.vh_ccr() != ccr || !wl.is_empty() || pend != want {
+                                verdict = Some(format!("vector {} requested with CCR {:02x} (I set): expected nothing to happen and {:?} to stay pending; PC {:06x} CCR {:02x} SP {:08x} pending {:?} writes {:?}", v, ccr, want, cpu.vh_pc(), cpu.vh_ccr(), cpu.er[7], pend, wl.len()));
+                            }
+                        } else {
+                            let want: Vec<u8> = second.into_iter().collect();
+                            if r.is_err() || cpu.er[7] != er[7].wrapping_sub(4) || pend != want || cpu.vh_ccr() & 0x80 == 0 {
+                                verdict = Some(format!("vector {} requested with CCR {:02x} (I clear): expected exactly this request to be accepted; SP {:08x} pending {:?} CCR {:02x}", v, ccr, cpu.er[7], pend, cpu.vh_ccr()));
+                            }
+                        }
+                        // undo the frame
+                        for a in wl {
+                            if let Some(p) = ctx.m.peek_shadow(a) {
+                                if let Some(s) = ctx.m.real_slot(a) {
+                                    *s = p;
+                                }
+                            }
+                        }
+                        ctx.m.cpu.vh_clear_pending_interrupts();
+                        if let Some(msg) = verdict {
+                            ctx.custom_violation("c10", msg, json!({"boundary": true, "vector": v, "ccr": ccr}), json!(null), json!(null));
+                            if ctx.stop {
+                                return;
+                            }
+                        }
+                    }
+                }
+            }
+        },
+    ));
     units
 }
 
@@ -379,7 +473,7 @@ pub fn c10(tier: Tier, _seed: u64) -> Prop {
         assumptions: vec![
             "requests are injected at the top of a loop iteration, exactly where a peripheral's request (raised by update_modules at the end of the previous iteration) becomes visible".into(),
             "order among simultaneously pending requests is not constrained".into(),
-            "deviation bound: k <= 3 (quick) / k <= 4 (thorough) injections over vectors {36,37,39,1,63}; six generated guests (straight-line / counted loop / call) x (short / long handlers); handlers never clear I themselves".into(),
+            "deviation bound: k <= 3 (quick) / k <= 4 (thorough) injections over vectors {36,37,39,1,63} at every loop iteration, plus every ordered pair / (v,w,v) triple over ALL vectors 1-63 at four relative timings, plus every vector x every CCR at a single boundary; six generated guests (straight-line / counted loop / call) x (short / long handlers) with handlers for all 63 vectors; handlers never clear I themselves".into(),
         ],
         units: c10_units(tier),
         extra: Box::new(|m| {
